@@ -4,6 +4,7 @@
 // It drives a REAL kapacitor.TaskMaster (kit.NewTM) with generated histories of
 //
 //	cfg <defaultRP> <api|http>
+//	startfail <id> <dbrps> <froms>  the same, but the task store reports a snapshot that cannot be loaded: StartTask must fail
 //	start <id> <dbrps> <froms>      NewTask(script generated from <froms>, one `@sink()` under every from()) + StartTask
 //	stop <id> / delete <id>         StopTask / DeleteTask
 //	write <db> <rp> <points>        TaskMaster.WritePoints, or POST /kapacitor/v1/write (serveWriteLine) in http mode
@@ -248,6 +249,17 @@ func selects(f *fromDef, db, rp string, p *point) bool {
 // ---------------------------------------------------------------------------------------------
 // executing one case on the real TaskMaster
 
+// snapStore is the TaskMaster's TaskStore: it has a (corrupt) snapshot exactly for the ids in `fail`.
+type snapStore struct{ fail map[string]bool }
+
+func (s *snapStore) SaveSnapshot(string, *kapacitor.TaskSnapshot) error { return nil }
+func (s *snapStore) HasSnapshot(id string) bool                         { return s.fail[id] }
+func (s *snapStore) LoadSnapshot(string) (*kapacitor.TaskSnapshot, error) {
+	return nil, errSnapshot
+}
+
+var errSnapshot = fmt.Errorf("snapshot cannot be loaded")
+
 const tmID = "verif" // kit.NewTM's TaskMaster id (tag `task_master` of the ingress statistics)
 
 // A TaskMaster never unpublishes its ingress statistics (and tasks that were never started keep their node
@@ -334,6 +346,7 @@ type runner struct {
 	base      int64
 	timeouts  int
 	waitLimit time.Duration
+	store     *snapStore
 	hung      string // set when a call into the real code did not return (the process must then exit)
 }
 
@@ -460,7 +473,7 @@ func (r *runner) waitSinks(ids map[string]bool, settle bool) {
 	}
 }
 
-func (r *runner) start(d *taskDef) string {
+func (r *runner) start(d *taskDef, failSnapshot bool) string {
 	var dbrps []kapacitor.DBRP
 	for _, x := range d.dbrps {
 		dbrps = append(dbrps, kapacitor.DBRP{Database: x[0], RetentionPolicy: x[1]})
@@ -474,13 +487,18 @@ func (r *runner) start(d *taskDef) string {
 		// restart in place: the old incarnation's sinks share the recording keys, let them finish first
 		r.waitSinks(map[string]bool{d.id: true}, true)
 	}
+	r.store.fail[d.id] = failSnapshot
 	err, hung := r.call("StartTask "+d.id, func() error { _, e := r.tm.TM.StartTask(task); return e })
+	delete(r.store.fail, d.id)
 	if hung {
 		return "hang"
 	}
 	if err != nil {
 		if len(dbrps) == 0 {
 			return "err:nodbrp"
+		}
+		if err == errSnapshot {
+			return "err:snapshot"
 		}
 		return "err:start"
 	}
@@ -661,6 +679,8 @@ func execCase(ops []string) (out []string, hung string) {
 	}
 	defer dropStatsExcept(statsBefore)
 	r.tm = tm
+	r.store = &snapStore{fail: map[string]bool{}}
+	tm.TM.TaskStore = r.store
 	tm.TM.DefaultRetentionPolicy = r.defRP
 	if err := tm.TM.Open(); err != nil {
 		fmt.Fprintln(os.Stderr, "c02: cannot open TaskMaster:", err)
@@ -686,7 +706,7 @@ func execCase(ops []string) (out []string, hung string) {
 		switch t[0] {
 		case "cfg":
 			out = append(out, line)
-		case "start":
+		case "start", "startfail":
 			if len(t) != 4 {
 				out = append(out, line+" => badop")
 				continue
@@ -698,7 +718,7 @@ func execCase(ops []string) (out []string, hung string) {
 				out = append(out, line+" => badop")
 				continue
 			}
-			guard(line, func() string { return r.start(&taskDef{id: id, dbrps: dbrps, froms: froms}) })
+			guard(line, func() string { return r.start(&taskDef{id: id, dbrps: dbrps, froms: froms}, t[0] == "startfail") })
 		case "stop", "delete":
 			id, _ := kit.Unesc(t[1])
 			guard(line, func() string { return r.stop(id, t[0] == "delete") })
